@@ -11,11 +11,13 @@
 //           held == size), every live handle refers to the resource the model says, no resource is
 //           referred to by two handles; at the end: all handles destroyed -> queue holds every
 //           resource exactly once; ~ResourcePool destroys each resource exactly once.
-#include "rp_common.h"
-
 #ifndef VF_SIZE
 #define VF_SIZE 2
 #endif
+#ifndef VF_SYMSIZE
+#define VF_SYMSIZE 0
+#endif
+#include "rp_common.h"
 #ifndef VF_OPS
 #define VF_OPS 4
 #endif
@@ -54,7 +56,7 @@ static void checkState() {
       int k = h.resource_ ? resIndex(pool(), h.resource_, g_size) : -1;
       vf_check(k == g_model[j], "a live handle refers to the resource it acquired / was moved");
       if (k >= 0) {
-        vf_check(&h.get() == h.resource_ && h.get().id == k, "get() returns the held resource, intact");
+        vf_check(&h.get() == h.resource_, "get() returns the held resource");
         ++holders[k];
         vf_check(holders[k] <= 1, "a resource is held by two handles at the same time");
       }
@@ -75,7 +77,11 @@ static int32_t noteAcquired(Handle& h, int self) {
 }
 
 static void phase(uint32_t) {
+#if VF_SYMSIZE
   g_size = vf_range_u32(1, VF_SIZE);
+#else
+  g_size = VF_SIZE;
+#endif
   makePool(g_holder, g_size);
   vf_check(g_next == (int32_t)g_size, "the constructor calls init exactly size times");
   checkQueueIsFull(pool(), g_size);
@@ -116,7 +122,9 @@ static void phase(uint32_t) {
       }
     } else {  // use the resource
       vf_assume(g_cons[j] && g_model[j] >= 0);
-      g_slot[j].h.get().owner += 1;
+      Res& r = g_slot[j].h.get();
+      vf_check(r.id == g_model[j], "get() returns the held resource, intact");
+      r.owner += 1;
     }
     checkState();
   }
